@@ -2,4 +2,5 @@
 pub mod refalg;
 pub mod refmat;
 pub mod matgen;
+pub mod pools;
 pub mod sc;
